@@ -491,6 +491,14 @@ fn do_op(w: &mut World, op: &Value, e: &mut Map<String, Value>) -> Result<(), St
                     o.consumer().pop_front();
                     1
                 }
+                _ if op["to_end"].as_bool() == Some(true) => {
+                    // Read::read_to_end: everything consumable, in one call
+                    use std::io::Read;
+                    let mut buf = Vec::new();
+                    let k = o.consumer().read_to_end(&mut buf).map_err(|e| format!("{e:?}"))?;
+                    e.insert("got".into(), json!(runlist(&buf)));
+                    k
+                }
                 _ => {
                     use std::io::Read;
                     let mut buf = vec![0u8; n];
